@@ -704,6 +704,10 @@ func (c *Chain) genMessage(t *rapid.T, sender int) (*shmsg.Message, string) {
 			}
 		}
 		th := uint64(rapid.IntRange(0, len(ks)+1).Draw(t, "badT"))
+		if rapid.IntRange(0, 3).Draw(t, "badTHuge") == 0 {
+			// thresholds that change sign or wrap when narrowed
+			th = rapid.SampledFrom([]uint64{1 << 63, 1<<63 + 1, math.MaxUint64, math.MaxUint64 - 1, 1 << 32, 1<<32 + 1, 1 << 31, 1<<63 - 1}).Draw(t, "badTv")
+		}
 		act := uint64(int64(last.Activation) + int64(rapid.IntRange(-1, 2).Draw(t, "badAct")))
 		if last.Activation == 0 && act > 1<<62 {
 			act = 0
